@@ -4,13 +4,13 @@ import TrustVerif.Drv.Common
 /-
 Driver for C12.  Protocol (one case):
   case <n>
-  lang <int> <dot> <dotdot> <eof> <ntrivia> (<TokenKind code> <SyntaxKind code>)*
+  lang <int> <dot> <dotdot> <eof> <n> (<TokenKind code> <SyntaxKind code> <is_trivia>)*   kinds of this case
   src <hex>                       the text
   raw (<kind> <lo> <hi>)* | raw - the raw logos stream
   lex                             -> m n=<tokens> h=<fnv64 of the post-pass result> tiles=<b> rawtiles=<b>
   toks (<kind> <lo> <hi>)* | toks - | toks =   the real token list (`=`: identical to the raw stream)
   ev <event>*                     the real parser events: S<k> | S<k>+<fp> | T<k> | T<k>*<n> | F | P
-  sink                            -> m ok nodes=<n> toks=<n> h=<fnv64 of the tree dump> text=<b> prem=<5 bits>
+  sink                            -> m ok nodes=<n> toks=<n> h=<fnv64 of the tree dump> text=<b> prem=<6 bits>
                                      | m panic | m diverge
   errs (<lo> <hi>)* | errs -      -> m n=<n> inb=<b> attok=<b>
   impl … / tag … / # …            ignored
@@ -31,6 +31,18 @@ def lookup (tbl : List (Nat × Nat)) (k : Nat) : Option Nat :=
   match tbl with
   | [] => none
   | (a, b) :: r => if a = k then some b else lookup r k
+
+/-- `(TokenKind code, SyntaxKind code, is_trivia)` triples of the `lang` line. -/
+def kindTable : List Nat → Option (List (Nat × Nat × Bool))
+  | [] => some []
+  | a :: b :: 0 :: r => (kindTable r).map ((a, b, false) :: ·)
+  | a :: b :: 1 :: r => (kindTable r).map ((a, b, true) :: ·)
+  | _ => none
+
+def lookup3 (tbl : List (Nat × Nat × Bool)) (k : Nat) : Option (Nat × Bool) :=
+  match tbl with
+  | [] => none
+  | (a, b, v) :: r => if a = k then some (b, v) else lookup3 r k
 
 def pairs : List Nat → Option (List (Nat × Nat))
   | [] => some []
@@ -101,12 +113,13 @@ def step (st : St) (line : String) : St × Option String :=
   | "lang" :: ws =>
     match parseNats? ws with
     | some (i :: d :: dd :: e :: n :: rest) =>
-      match pairs rest with
+      match kindTable rest with
       | some tbl =>
         if tbl.length ≠ n then (st, some "bad-op") else
         let L : Lang := { int := i, dot := d, dotDot := dd, eof := e,
-                          isTrivia := fun k => (lookup tbl k).isSome,
-                          toSyntax := fun k => match lookup tbl k with | some s => s | none => k }
+                          isTrivia := fun k => match lookup3 tbl k with | some (_, v) => v | none => false,
+                          -- a kind that the harness did not list maps to an impossible code
+                          toSyntax := fun k => match lookup3 tbl k with | some (s, _) => s | none => 65535 }
         ({ st with lang := some L }, none)
       | none => (st, some "bad-op")
     | _ => (st, some "bad-op")
@@ -141,7 +154,7 @@ def step (st : St) (line : String) : St × Option String :=
     match st.lang with
     | none => (st, some "bad-op")
     | some L =>
-      let out := postpass L st.src st.raw
+      let out := lexAll L st.src st.raw
       (st, some s!"m n={out.length} h={hex16 (hashToks out)} tiles={bit (tiles out 0 st.src.length)} rawtiles={bit (tiles st.raw 0 st.src.length)}")
   | ["sink"] =>
     match st.lang with
@@ -149,7 +162,8 @@ def step (st : St) (line : String) : St × Option String :=
     | some L =>
       let prem := bit (eventsBalanced st.events) ++ bit (fpOk st.events) ++
         bit (consumesAll L st.toks st.events) ++ bit (noEof L st.toks) ++
-        bit (onBoundaries st.src st.toks && tiles st.toks 0 st.src.length)
+        bit (onBoundaries st.src st.toks && tiles st.toks 0 st.src.length) ++
+        bit (kindsAgree L st.toks st.events)
       match sink L st.src st.toks st.events with
       | .ok t =>
         let d := dumpTree {} t
